@@ -19,7 +19,9 @@ RULE = ("grammar-generated ASTs of the stratified expression language (every ope
         "single-character deletions and a sample of insertions/replacements over the solver alphabet, classified "
         "by the reference recogniser (well-formed -> value must equal the specification; unbalanced / wrong "
         "arity / missing operand / missing operator between two operands -> must raise; other -> no verdict); for the "
-        "same subset every deletion of one whole operator lexeme; (; random literal candidates for the "
+        "same subset every deletion of one whole operator lexeme; malformed calls at a general position (wrong arity, "
+        "or a dangling operator inside 1-7 nested one-argument calls, after a rendered prefix `e o` or at the start, with an "
+        "empty / well-formed / malformed remainder); random literal candidates for the "
         "float-literal recogniser; long flat chains (550-3000 operands quick, up to 5000 thorough) on one nesting "
         "level for every binary step, operands with sign runs, bare or inside a call; every stream is also solved, in the same order (well-formed strings interleaved "
         "with the malformed ones), by ONE long-lived solver instance. deeply nested calls (30-70 levels quick, 60-120 thorough). non-trivial = expression with >= 2 operators of different steps, a sign, or "
@@ -59,14 +61,21 @@ ASSUMPTIONS = [
     "theorem literals: any non-empty text of digits, '.', 'e' in which every 'e' is followed by a digit and which "
     "the atom class accepts (LitOK); every grammar literal is one (C01_grammar_literals); blanks are spaces",
     "C01_reject_unbalanced assumes the atom class rejects texts containing a parenthesis (true of float()); "
-    "C01_reject_arity covers a call at the start of the string (after blanks) with arbitrary balanced arguments; "
-    "missing operands are proved at token level (right operand, left operand, trailing sign)",
+    "C01_reject_arity covers a call at the start of the string (after blanks) with arbitrary balanced arguments, "
+    "C01_reject_arity_after_prefix / _after_operator / _after_expression a call after a well-formed expression "
+    "framed by operator symbols; missing operands are proved at token level and at string level for an operator "
+    "before or after the text of a well-formed expression (right operand, left operand, trailing sign), and for a "
+    "dangling operator inside any number of nested parentheses / one-argument calls at the start or after such a "
+    "prefix (C01_reject_missing_operand_in_call, ..._nested, ..._after_prefix), likewise a wrong-arity call inside "
+    "nested one-argument calls (C01_reject_arity_nested, ..._after_prefix); other positions (two adjacent "
+    "operators in the middle, anything malformed inside a two-argument call) are correspondence-checked",
 ]
 EXPLANATION = ("theorems (all unbounded, over the regenerated tables): solve(render blanks e) = eval e for every "
                "well-formed e, every blank placement and every atom algebra with neg(neg a)=a (character level: "
                "tokenizer + argument scanner + nested solvers, and token level: the nine passes); blank invariance; "
                "generated step table = documentation table; every string with unbalanced parentheses is rejected; a "
-               "call with a wrong number of arguments is rejected; missing operands are rejected (token level). "
+               "call with a wrong number of arguments, at the start or after a well-formed prefix, is rejected; missing "
+               "operands are rejected (token level, string level around an expression and inside a call). "
                "correspondence ties the model (tokenizer, scanner, passes) to the real code on every run")
 EXTRA_OBLIGATIONS = [
     # kernel-decided facts over the regenerated operator table (lean/SciVerif/Facts/C01Sym.lean)
@@ -389,6 +398,45 @@ def longlived_stream(ctx, items, where):
                 failed_before = text
 
 
+def general_position_texts(rng, asts, n):
+    """Malformed calls at a GENERAL position -- the shapes of C01_reject_arity_after_prefix,
+    C01_reject_missing_operand_in_call and ..._after_prefix: after a well-formed prefix `e o` (or at the start of
+    the string) a call with a wrong number of balanced arguments, or parentheses / a one-argument call around
+    `e' o'` (dangling operator), itself inside 0-6 further one-argument calls; blanks anywhere; followed by an empty, well-formed or itself malformed remainder."""
+    small = [e for e in asts if L.size(e) <= 25] or asts
+    ops = list(L.B2_SYM.values())
+
+    def txt(e):
+        return L.render(e, L.gen_blanks(rng, len(L.lexemes(e))))
+
+    def sp():
+        return " " * rng.randrange(3)
+
+    out = []
+    for _ in range(n):
+        pre, a, b, c = (rng.choice(small) for _ in range(4))
+        prefix = "" if rng.random() < 0.25 else txt(pre) + sp() + rng.choice(ops + ["!"] * 2) + sp()
+        rest = rng.choice(["", sp() + rng.choice(ops) + sp() + txt(c), sp() + ")", " 1 2", sp() + rng.choice(ops)])
+        if rng.random() < 0.5:
+            if rng.random() < 0.5:
+                f = rng.choice(list(L.F1_SYM.values()))
+                args = [txt(a), txt(b)] + ([txt(c)] if rng.random() < 0.3 else [])
+            else:
+                f = rng.choice(list(L.F2_SYM.values()))
+                args = rng.choice([[txt(a)], [txt(a), txt(b), txt(c)]])
+            call = f + ",".join(args) + ")"
+            for _ in range(rng.choice([0, 0, 0, 1, 2, 4])):      # nested one-argument calls / parentheses
+                call = rng.choice(list(L.F1_SYM.values())) + sp() + call + sp() + ")"
+            out.append(prefix + call + rest)
+        else:
+            f = rng.choice(list(L.F1_SYM.values()))
+            inner = txt(a) + sp() + rng.choice(ops) + sp()
+            for _ in range(rng.choice([0, 0, 1, 2, 3, 6])):      # nested one-argument calls / parentheses
+                inner = sp() + rng.choice(list(L.F1_SYM.values())) + inner + ")" + sp()
+            out.append(prefix + f + inner + ")" + rest)
+    return out
+
+
 def text_stream(ctx, texts, where):
     """plain strings (corpus of malformed inputs)"""
     opname = opname_default()
@@ -651,6 +699,8 @@ def correspond(ctx: Ctx):
             continue
         asts.append(e)
     ast_stream(ctx, asts, 3, 40 if thorough else 30, "generated")
+    # malformed calls at a general position (wrong arity / dangling operator inside a call, after a prefix)
+    text_stream(ctx, general_position_texts(rng, asts, 1500 if thorough else 300), "general-position")
     ctx.extra["max_depth"] = maxd
 
 
